@@ -102,6 +102,7 @@ worker (void *p)
 	machine_step (t->m, &clean, j, &st);
 	t->ops_run++;
 	h = fnv_u64 (h, ((uint64_t)j << 4) ^ (uint64_t)(st.ret * 2 + st.executed));
+	if (st.aux) h = fnv_u64 (h, st.aux);
 	if (st.is_draw && st.dst_slot >= 0) h = machine_hash_slot (t->m, st.dst_slot, h);
 	if (st.region_written) h = machine_hash_region (t->m, st.region_written, st.region_slot, h);
     }
@@ -147,6 +148,7 @@ make_private (machine_t *ms, int chain)
 	m->img[k] = ms->img[k];
 	m->img[k].buf = NULL;            /* the shared machine owns the storage */
     }
+    m->shared_regions = ms;            /* its regions are read-only operands for every thread */
     return m;
 }
 
@@ -351,6 +353,22 @@ generate (uint64_t seed, int tier, const char *property, scenario_t *sc)
     }
     /* the first use, on the main thread, before any worker exists */
     for (k = SH0; k < M_NIMG; k++) gen_composite (&g, 1, k, -1, 0);
+    /* regions of the main thread: operands (never destinations) of the workers' region algebra;
+     * now and then one of them is the broken region */
+    for (k = 0; k < 2 * M_NREG; k++)
+    {
+	int64_t a[64];
+	int n = 0, cnt = (int)rng_range (&r, 0, 8), q;
+	a[n++] = 0; a[n++] = 0; a[n++] = 0;
+	a[n++] = k & 1; a[n++] = k / 2;
+	if (rng_chance (&r, 1, 6)) a[n++] = 100000;
+	else
+	{
+	    a[n++] = cnt;
+	    for (q = 0; q < cnt; q++) { int64_t x = rng_range (&r, 0, 60), y = rng_range (&r, 0, 60); a[n++] = x; a[n++] = y; a[n++] = x + rng_range (&r, 1, 20); a[n++] = y + rng_range (&r, 1, 20); }
+	}
+	sc_addv (sc, MOP_R_INIT_RECTS, n, a);
+    }
     retag (sc, from, TID_MAIN);
 
     for (i = 0; i < n; i++)
@@ -377,13 +395,19 @@ generate (uint64_t seed, int tier, const char *property, scenario_t *sc)
 	    else if (roll < 60) gen_fill_boxes (&p, dst, rng_chance (&r, 1, 2), 0);
 	    else if (roll < 64) gen_fill (&p, dst);
 	    else if (roll < 74) { static const int tk[] = { MOP_COMPOSITE_TRAPS, MOP_COMPOSITE_TRIS, MOP_ADD_TRAPS, MOP_ADD_TRAPEZOIDS }; gen_traps (&p, tk[rng_n (&r, 4)], src, dst); }
-	    else if (roll < 82) gen_region_op (&p);
+	    else if (roll < 78) gen_region_op (&p);
+	    else if (roll < 82)
+	    {
+		int64_t a[9] = { 0, 0, 0, (int64_t)rng_n (&r, 2), (int64_t)rng_n (&r, 3), (int64_t)rng_n (&r, M_NREG), (int64_t)rng_n (&r, M_NREG), (int64_t)rng_n (&r, 2 * M_NREG), (int64_t)rng_n (&r, 2) };
+		sc_addv (sc, MOP_R_SHARED_BINOP, 9, a);
+	    }
 	    else if (roll < 90)
 	    {
 		if (!p.gc_exists[0]) { gen_glyph_op (&p, MOP_GC_CREATE, 0, 0, 0); gen_glyph_op (&p, MOP_GC_INSERT, 0, rng_chance (&r, 1, 2) ? 1 : SH0 + (int)rng_n (&r, 4), 0); }
 		else gen_glyphs (&p, 0, src, dst);
 	    }
-	    else if (roll < 95) { gen_transform (&p, 2, TC_ANY); gen_filter (&p, 2, 0); }
+	    else if (roll < 93) { gen_transform (&p, 2, TC_ANY); gen_filter (&p, 2, 0); }
+	    else if (roll < 95) gen_misc_alloc_op (&p, MOP_FILTER_CREATE, 0, 0, 0);
 	    else { int fs = 3 + (int)rng_n (&r, 3); if (!p.s[fs].used) gen_source (&p, fs, FC_ANY, 16); else gen_unref (&p, fs); }
 	}
 	retag (sc, from, i);
